@@ -341,8 +341,25 @@ class AbsNode(tree.Item):
         c.assume(RECOG[UNIVERSE[-1].__name__](self.fp))
         return UNIVERSE[-1]
 
+    LEAF_CLASSES = ("Word", "Phrase", "Regex", "Term")
+
     def clone_item(self, **kw):
-        raise EngineUnsupported("clone_item of abstract node")
+        """contract of Item.clone_item (C09-K, proved per class): a fresh node of the same class with the same layout
+        (overridden by head / tail / pos / size keywords) whose children are placeholders - so only for childless
+        classes is it equal to, and printed like, the original; otherwise nothing is known of its text"""
+        extra = set(kw) - {"head", "tail", "pos", "size"}
+        if extra:
+            raise EngineUnsupported("clone_item of abstract node with %s" % sorted(extra))
+        r = AbsNode(self.vf_name + "_clone", layout="none")
+        d = r.__dict__
+        for k in ("head", "tail", "pos", "size"):
+            d[k] = kw[k] if k in kw else self.__dict__[k]
+        c = ctx()
+        for cls in UNIVERSE:
+            c.assume(RECOG[cls.__name__](r.fp) == RECOG[cls.__name__](self.fp))
+        leaf = is_class(self.fp, list(self.LEAF_CLASSES))
+        c.assume(z3.Implies(leaf, z3.And(r.fp == self.fp, r.core.t == S(self.core))))
+        return r
 
 
 class Run(tree.Item):
